@@ -221,15 +221,16 @@ static URI_INLINE UriBool URI_FUNC(FixPathAfterDotRemoval)(URI_TYPE(Uri) * uri,
 		return URI_TRUE;
 	}
 
+	if (!relative) {
+		URI_FUNC(FixEmptyFirstSegment)(uri, memory);
+		head = uri->pathHead;
+	}
+
 	if (head->text.first != head->text.afterLast) {
 		guardNeeded = (relative && URI_FUNC(SegmentContainsColon)(head))
 				? URI_TRUE : URI_FALSE;
-	} else if (uri->absolutePath || relative) {
-		guardNeeded = (head->next != NULL) ? URI_TRUE : URI_FALSE;
 	} else {
-		guardNeeded = ((head->next != NULL)
-				&& (head->next->text.first == head->next->text.afterLast)
-				&& (head->next->next != NULL)) ? URI_TRUE : URI_FALSE;
+		guardNeeded = (head->next != NULL) ? URI_TRUE : URI_FALSE;
 	}
 	if (!guardNeeded) {
 		return URI_TRUE;
